@@ -61,7 +61,7 @@ def _init():
     return _W
 
 
-FRAGS = ["Red", "Blue", "(Green, Square)", "Circle", "Grren", "Red/Crimson", "Duration/3 cm", "Item/Object/Junk", "Train/Maglev",
+FRAGS = ["Red", "Blue", "(Green, Square)", "Circle", "Red", "()", "(Blue, ())", "Grren", "Red/Crimson", "Duration/3 cm", "Item/Object/Junk", "Train/Maglev",
          "Train/Maglev/Fast", "Label/#", "Label/a b", "Red/", "Description/bad*chars", "(Onset, Face)", "Age/12", "(Yellow, (Star, Black))",
          "Purple-color/Purple/Deep", "Label/ok-1"]
 STRUCT = ["dup", "empty", "paren"]
@@ -83,7 +83,11 @@ def _gen_string(g):
 def generate(run_index, seed, tier):
     g = Gen(seed)
     strings = [_gen_string(g) for _ in range(g.randint(2, 5))]
-    sidecar = {"tt": {"HED": {"go": g.pick(strings), "stop": _gen_string(g)}}, "val": {"HED": "Label/#, " + g.pick(["Red", "Grren", "Train/Maglev"])}}
+    sidecar = {"tt": {"HED": {"go": g.pick(strings), "stop": _gen_string(g)}},
+               "val": {"HED": "Label/#, " + g.pick(["Red", "Red", "Blue", "(Green, Square)", "Grren", "Train/Maglev", "Duration/3 cm"])}}
+    if g.chance(0.5):
+        # a fourth HED-bearing column, so that rows with three and four non-empty cells occur (span remapping)
+        sidecar["zz"] = {"HED": {"a": g.pick(["Circle", "Red", "(Green, Square)", "Train/Maglev"]), "b": _gen_string(g)}}
     if g.chance(0.25):
         # structural / reference faults: the sidecar validator takes its early-return path
         how = g.pick(["reserved-column", "self-ref", "malformed-brace", "nested-hed-key"])
@@ -99,7 +103,8 @@ def generate(run_index, seed, tier):
     t = 0.0
     for _ in range(g.randint(1, 4)):
         t += g.pick([0.5, 1.0])
-        rows.append(["%g" % t, g.pick(strings + ["n/a"]), g.pick(["go", "stop", "n/a", "zzz"]), g.pick(["abc", "n/a", "7"])])
+        rows.append(["%g" % t, g.pick(strings + ["n/a", "Red", "Blue"]), g.pick(["go", "stop", "go", "n/a", "zzz"]), g.pick(["abc", "n/a", "7", "x"]),
+                     g.pick(["a", "b", "n/a"])])
     ops = []
     depth = 0
     n_entry = 0
@@ -129,7 +134,8 @@ def generate(run_index, seed, tier):
             ops.append(["redecorate", g.randint(1, 3)])
     ops += [["redecorate", 1]] if g.chance(0.3) else []
     tail = g.shuffled([["sort"], ["filter"], ["printable"]])[:g.randint(1, 3)] + [["replace_json"]]
-    return {"strings": strings, "sidecar": sidecar, "rows": rows, "ops": ops + tail, "warnings": g.chance(0.7)}
+    return {"strings": strings, "sidecar": sidecar, "rows": rows, "ops": ops + tail, "warnings": g.chance(0.7),
+            "no_onset": g.chance(0.4)}
 
 
 def shrink(sc):
@@ -277,7 +283,15 @@ def execute(sc, script=None):
         return W["Sidecar"](io.StringIO(json.dumps(sc["sidecar"])), name="sc")
 
     def table_obj():
-        df = W["pd"].DataFrame(sc["rows"], columns=["onset", "HED", "tt", "val"], dtype=str)
+        cols = ["onset", "HED", "tt", "val", "zz"]
+        rows = [list(r) + ["n/a"] * (len(cols) - len(r)) for r in sc["rows"]]
+        if "zz" not in sc["sidecar"]:
+            cols, rows = cols[:4], [r[:4] for r in rows]
+        if sc.get("no_onset"):
+            # without an onset column the row-level checks run on a row string built from the cell strings
+            # (HedString.from_hed_strings), whose spans are remapped
+            cols, rows = cols[1:], [r[1:] for r in rows]
+        df = W["pd"].DataFrame(rows, columns=cols, dtype=str)
         return W["TabularInput"](df, sidecar=sidecar_obj(), name="events")
 
     def run_entry(kind, arg, eh, push_hs=False):
@@ -413,6 +427,10 @@ def execute(sc, script=None):
                     viol("json", "codes changed across replace_tag_references + JSON", "json-codes-change")
                 continue
         except Exception as e:  # noqa
+            if kind in ("string", "sidecar", "table", "format"):
+                # C12 does not promise that validation never raises (C07 does, for files): nothing to judge here
+                probe("entry_point_raised_" + type(e).__name__)
+                break
             viol("no-exception", "%s raised %s: %s" % (where, type(e).__name__, str(e)[:300]), "%s-raises-%s" % (kind, type(e).__name__))
             break
         for n, i in enumerate(bag):
